@@ -90,9 +90,14 @@ def make_ref(ch, m):
     same = set()
     enc = wasm.Encoder()
     keep = []
+    padded = getattr(m, 'block_padded', ())
     for i, f in enumerate(r.funcs):
         k = ch.below(4)
-        if k == 0:
+        if i in padded and k != 3:
+            # body of k*64 bytes whose counterpart differs in its last block only (the constant of the padding's `i32.const 0; drop`)
+            assert f.body[-2] == ('i32.const', 0) and f.body[-1] == ('drop',)
+            keep.append(Func(f.type, f.locals, list(f.body[:-2]) + [('i32.const', 1), ('drop',)]))
+        elif k == 0:
             rs = r.types[f.type][1]
             keep.append(Func(f.type, f.locals, list(f.body) + ([('drop',), ('%s.const' % rs[0], 7)] if rs else [('nop',)])))
         elif k == 1 and f.body and len(f.body[-1]) == 1 and f.body[-1][0] in SWAP_LAST:
@@ -104,6 +109,27 @@ def make_ref(ch, m):
             keep.append(f)
     r.funcs = keep
     return wasm.encode(r)
+
+
+def pad_to_blocks(ch, m):
+    """pads one or two bodies at their end (nop ... i32.const 0, drop) so that the hashed byte range (locals + code) is an exact multiple
+    of the hash function's 64-byte block and at least two blocks long; make_ref then changes only the last block"""
+    m.block_padded = set()
+    if not m.funcs:
+        return
+    for _ in range(1 + ch.below(2)):
+        i = ch.below(len(m.funcs))
+        if i in m.block_padded:
+            continue
+        f = m.funcs[i]
+        L = len(body_bytes(m)[i]) + 3
+        need = (-L) % 64
+        if L + need < 128:
+            need += 64
+        need += 64 * ch.below(3)
+        m.funcs[i] = Func(f.type, f.locals, list(f.body) + [('nop',)] * need + [('i32.const', 0), ('drop',)])
+        assert len(body_bytes(m)[i]) % 64 == 0 and len(body_bytes(m)[i]) >= 128
+        m.block_padded.add(i)
 
 
 def body_bytes(m):
@@ -247,6 +273,8 @@ def gen_case(ch, params):
     else:
         mk = ch.pick(('c05_history', 'c04_calls', 'c06_inst', 'c03_ctrl', 'c02_expr', 'c05_history', 'c16_seq'))
         m, script, meta = f1.MAKERS[mk](ch, {'nfuncs': 14, 'nargs': 3, 'nsteps': 40})
+    if ch.below(2) == 0:
+        pad_to_blocks(ch, m)
     wasm.validate(m)
     ni = m.n_imported_funcs()
     if m.func_names is None:
@@ -302,6 +330,8 @@ def task(wid, seed, params):
                 classes.append('threads>=2_files>=3')
             if nopt >= 3:
                 classes.append('>=3_options')
+            if getattr(m, 'block_padded', None) and '-r' in opts:
+                classes.append('-r_body_of_k*64_bytes_differs_in_last_block')
             for c in classes:
                 res['classes'][c] += 1
             for o in opts:
